@@ -72,10 +72,11 @@ class Summary(object):
         self.size = 0
         self.defaults = None   # location of a reachable `X = &defaultMemoryManager` (own or in a callee)
         self.mgr_use = set()   # manager parameters whose entry value may be the receiver of a manager call
+        self.allocs = False    # a manager allocation is reachable in this context (transitively)
 
     def measure(self):
         return (len(self.effects), len(self.ret), sum(len(v) for v in self.heap.values()) + len(self.heap),
-                sum(len(v) for v in self.copy.values()), self.defaults is not None, len(self.mgr_use))
+                sum(len(v) for v in self.copy.values()), self.defaults is not None, len(self.mgr_use), self.allocs)
 
 
 def is_ptr_type(t):
@@ -103,6 +104,7 @@ class FuncAnalysis(object):
         self.calls_ctx = {}
         self.defaults = None
         self.mgr_use = set()
+        self.allocs = False
         for p in f.params:
             self.heap[('L:' + p, ())] = {('P:' + p, ())}
         self.facts, self.dom = eng.facts(f)
@@ -593,6 +595,9 @@ class FuncAnalysis(object):
             if member in ('malloc', 'calloc'):
                 fresh = ('F:%s:%s' % (f.name, i.loc[1] if i.loc else '?'), ())
                 ch |= self.store(dst_t, {fresh})
+                if not self.allocs:
+                    self.allocs = True
+                    ch = True
             elif member in ('realloc', 'reallocarray'):
                 fresh = ('F:%s:%s' % (f.name, i.loc[1] if i.loc else '?'), ())
                 ch |= self.store(dst_t, {fresh} | self.pts(i.args[1]))
@@ -638,6 +643,9 @@ class FuncAnalysis(object):
             for p, a in zip(callee.params, i.args):
                 amap[p] = self.pts(a)
                 ahandles[p] = self.arg_handles(a)
+            if summ.allocs and not self.allocs:
+                self.allocs = True
+                ch = True
             if summ.defaults is not None and self.defaults is None:
                 trig = summ.defaults[2]
                 fires = True
@@ -796,6 +804,16 @@ class FuncAnalysis(object):
                 return True
         return False
 
+    def callee_ctx(self, b, callee, args):
+        vals = []
+        for p, a in zip(callee.params, args):
+            v = self.value_of(a)
+            if v is None and self.known_nonnull(b, a):
+                v = 'nonnull'
+            if v is not None:
+                vals.append((p, v))
+        return tuple(vals)
+
     def known_nonnull(self, b, a):
         """is pointer expression a known non-NULL at block b from dominating tests?"""
         if not is_ptr_type(a.ty):
@@ -837,6 +855,7 @@ class FuncAnalysis(object):
         s = Summary()
         s.defaults = self.defaults
         s.mgr_use = set(self.mgr_use)
+        s.allocs = self.allocs
         s.effects = dict(self.effects)
         s.ret = set(o for o in self.ret if o[0][0] != 'L')
         for k, v in self.heap.items():
